@@ -8,7 +8,7 @@
 From Coq Require Import Reals ZArith List String.
 From PyLib Require Import PyVal PyBuiltins Ideal Sphere.
 From Gen Require Import M_base M_Angle M_Epoch M_Interpolation M_Coordinates.
-From Proofs.C05 Require Import C05_angle C05_run C05_ecl C05_hor C05_gal C05_sep.
+From Proofs.C05 Require Import C05_angle C05_run C05_ecl C05_hor C05_gal C05_sep C05_circle.
 Import ListNotations.
 Open Scope R_scope.
 
@@ -225,6 +225,33 @@ Proof.
   exact (conj pa_x_value (conj relpa_quotient_form relpa_antisym)).
 Qed.
 
+(* circle_diameter, with the three separations s12, s13, s23 (degrees, 0..180) abstracted:
+   the code takes the longest one as a (circ_sel), returns a when a >= sqrt(b^2+c^2) (right or
+   obtuse triangle) and 2abc/sqrt((a+b+c)(a+b-c)(b+c-a)(a+c-b)) otherwise (circ_d), ... *)
+Theorem C05_circle_closed_form : forall a1 d1 a2 d2 a3 d3 s12 s13 s23,
+  f_angular_separation Rops (ang a1) (ang d1) (ang a2) (ang d2) = ang s12 ->
+  f_angular_separation Rops (ang a1) (ang d1) (ang a3) (ang d3) = ang s13 ->
+  f_angular_separation Rops (ang a2) (ang d2) (ang a3) (ang d3) = ang s23 ->
+  0 <= s12 <= 180 -> 0 <= s13 <= 180 -> 0 <= s23 <= 180 ->
+  f_circle_diameter Rops (ang a1) (ang d1) (ang a2) (ang d2) (ang a3) (ang d3)
+  = ang (let '(a, b, c) := circ_sel s12 s13 s23 in circ_d a b c).
+Proof. exact circle_closed. Qed.
+
+(* ... and the result lies between the largest separation and 2/sqrt(3) times it *)
+Theorem C05_circle_bounds : forall a1 d1 a2 d2 a3 d3 s12 s13 s23,
+  f_angular_separation Rops (ang a1) (ang d1) (ang a2) (ang d2) = ang s12 ->
+  f_angular_separation Rops (ang a1) (ang d1) (ang a3) (ang d3) = ang s13 ->
+  f_angular_separation Rops (ang a2) (ang d2) (ang a3) (ang d3) = ang s23 ->
+  0 <= s12 <= 180 -> 0 <= s13 <= 180 -> 0 <= s23 <= 180 ->
+  exists d, f_circle_diameter Rops (ang a1) (ang d1) (ang a2) (ang d2) (ang a3) (ang d3) = ang d
+    /\ Rmax s12 (Rmax s13 s23) <= d <= 2 * Rmax s12 (Rmax s13 s23) / sqrt 3.
+Proof. exact circle_bounds. Qed.
+
+(* the planar fact behind it, for any sides 0 <= b, c <= a *)
+Theorem C05_circle_geometry : forall a b c, 0 <= b <= a -> 0 <= c <= a ->
+  a <= circ_d a b c <= 2 * a / sqrt 3.
+Proof. exact circ_d_bounds. Qed.
+
 Redirect "C05_closed_forms.assumptions" Print Assumptions C05_closed_forms.
 Redirect "C05_ecl_rotation.assumptions" Print Assumptions C05_ecl_rotation.
 Redirect "C05_ecl_inverse.assumptions" Print Assumptions C05_ecl_inverse.
@@ -235,3 +262,6 @@ Redirect "C05_gal_inverse.assumptions" Print Assumptions C05_gal_inverse.
 Redirect "C05_dot_preserved.assumptions" Print Assumptions C05_dot_preserved.
 Redirect "C05_separation.assumptions" Print Assumptions C05_separation.
 Redirect "C05_position_angle.assumptions" Print Assumptions C05_position_angle.
+Redirect "C05_circle_closed_form.assumptions" Print Assumptions C05_circle_closed_form.
+Redirect "C05_circle_bounds.assumptions" Print Assumptions C05_circle_bounds.
+Redirect "C05_circle_geometry.assumptions" Print Assumptions C05_circle_geometry.
